@@ -146,6 +146,13 @@ func WorkerMain(t *testing.T) {
 	go func() {
 		for {
 			time.Sleep(500 * time.Millisecond)
+			if hard := envU("VERIF_HARD_RSS_MB", 8192) << 20; rssBytes() > hard {
+				// something allocates without end (the simulated broker would be killed by the OS):
+				// stop before the machine is exhausted; the driver treats it like any other death
+				os.WriteFile(out+".hang", []byte(fmt.Sprintf("%d", curSeed.Load())), 0o644)
+				fmt.Fprintf(Stderr, "WATCHDOG: run seed=%d: the process grew beyond %d MiB\n", curSeed.Load(), hard>>20)
+				os.Exit(3)
+			}
 			if s := runStarted.Load(); s != 0 && time.Since(time.Unix(0, s)) > w.RunTimeout {
 				os.WriteFile(out+".hang", []byte(fmt.Sprintf("%d", curSeed.Load())), 0o644)
 				fmt.Fprintf(Stderr, "WATCHDOG: run seed=%d exceeded %v\n", curSeed.Load(), w.RunTimeout)
